@@ -73,10 +73,11 @@ type c19Shared struct {
 	eid                      *object.ExtendedSpatialID
 	ints                     []int64
 	strs                     []string
-	strsWin                  []string // length 3 window of an 8-element array: helpers must not write behind it
-	emptyCap                 []string // length 0, capacity 8, over a backing array filled with sentinels
-	badList                  []string // valid prefix that expands to > 1000 voxels, then a malformed ID
-	obst, obstExt, probes    []string // 40 obstacle voxels; the same plus 3 more; 3000 probes whose last one overlaps only the extension
+	highShared               *integrate.HighSpatialID // six children of one voxel, merged at build time; only ever an argument afterwards
+	strsWin                  []string                 // length 3 window of an 8-element array: helpers must not write behind it
+	emptyCap                 []string                 // length 0, capacity 8, over a backing array filled with sentinels
+	badList                  []string                 // valid prefix that expands to > 1000 voxels, then a malformed ID
+	obst, obstExt, probes    []string                 // 40 obstacle voxels; the same plus 3 more; 3000 probes whose last one overlaps only the extension
 }
 
 func (s *c19Shared) snapshot() string {
@@ -123,12 +124,22 @@ func pts2s(l []*object.Point, err error) string {
 	return b.String()
 }
 
+// c19High wraps one voxel as a merge candidate for its parent one level up on both axes (threshold 8 unit cells).
+func c19High(id string) *integrate.HighSpatialID {
+	o, _ := object.NewExtendedSpatialID(id)
+	return integrate.NewHighSpatialID(integrate.NewUnitDividedSpatialID(o, 0, 0), 1, 1)
+}
+
 func c19Build() (*c19Shared, []c19Inst) {
 	s := &c19Shared{}
 	s.ext = []string{"20/85263/65423/20/-3", "20/85263/65423/20/-3", "20/85264/65423/20/2", "21/170526/130846/22/-9", "19/42631/32711/19/-1", "20/85263/65424/21/5"}
 	s.extSorted = []string{"22/10/10/20/-4", "22/10/10/20/-4", "22/10/11/20/-4", "22/11/10/20/-4", "22/11/11/20/-4", "22/11/11/20/-4"} // ascending, with duplicates
 	s.sp = []string{"20/-3/85263/65423", "20/2/85264/65423", "21/-9/170526/130846", "19/-1/42631/32711"}
 	s.family = []string{"5/10/12/5/2", "9/300/77/9/400", "5/10/12/5/3", "5/10/13/5/2", "5/10/13/5/3", "5/11/12/5/2", "5/11/12/5/3", "5/11/13/5/2", "5/11/13/5/3"}
+	s.highShared = c19High("5/10/12/5/2")
+	for _, ch := range []string{"5/10/12/5/3", "5/10/13/5/2", "5/10/13/5/3", "5/11/12/5/2", "5/11/12/5/3"} {
+		s.highShared.Merge(c19High(ch))
+	}
 	s.nest = []string{"11/1810/806/12/7", "11/1811/807/12/7", "10/905/403/12/7", "10/905/403/11/3", "10/905/403/11/3"}
 	mk := func(lon, lat, alt float64) *object.Point { p, _ := object.NewPoint(lon, lat, alt); return p }
 	s.points = []*object.Point{mk(139.753098, 35.685371, 100), mk(139.753098, 35.685371, -20.5), mk(-179.9999, -84.9, 0), mk(0, 0, -0.001), mk(180, 85.05, 33554432)}
@@ -389,6 +400,19 @@ func c19Build() (*c19Shared, []c19Inst) {
 			e3 := o3.ResetExtendedSpatialID("9/3/4/8/-2")
 			return fmt.Sprint(common.AlmostEqual(1, 1+1e-12, 1e-10), common.DegreeToRadian(33.5), common.RadianToDegree(0.77), len(up), *mxp, e1, *mnp, e2,
 				m.Mul(m), q, v, x1, x2, y1, y2, h1.IsDense(), o3.ID(), e3, o3.Higher(1, 1).ID(), sperrors.NewSpatialIdError(sperrors.InputValueErrorCode, "x"))
+		}),
+		// the exported merge building blocks with a SHARED argument: six of the eight children of 4/5/6/4/1, merged once at
+		// build time, are merged into fresh receivers; Merge reads its argument, it must not write to it
+		I("integrate.HighSpatialID.Merge(shared six children) into a seventh", func() string {
+			r := c19High("5/11/13/5/2")
+			r.Merge(s.highShared)
+			return fmt.Sprint(r.IsDense(), s.highShared.IsDense())
+		}),
+		I("integrate.HighSpatialID.Merge(shared six children) into the other two", func() string {
+			r := c19High("5/11/13/5/2")
+			r.Merge(c19High("5/11/13/5/3"))
+			r.Merge(s.highShared)
+			return fmt.Sprint(r.IsDense(), s.highShared.IsDense())
 		}),
 		I("object.constructors", func() string {
 			p, e1 := object.NewPoint(12.5, -33.00000000005, 7)
